@@ -8,8 +8,12 @@ import (
 	"encoding/hex"
 	"encoding/json"
 	"io"
+	"os"
+	"runtime"
 	"strconv"
 	"strings"
+	"sync"
+	"time"
 )
 
 // V is an s-expression: an atom or a list.
@@ -92,25 +96,93 @@ func Fork(seed uint64, i uint64) *Rng {
 func Pick[T any](r *Rng, xs []T) T { return xs[r.Intn(len(xs))] }
 
 // Out writes the harness protocol: one JSON object per line.
-type Out struct{ w *bufio.Writer }
+type Out struct {
+	mu       sync.Mutex
+	w        *bufio.Writer
+	inflight []byte    // the announcement of the input the implementation is working on, nil between cases
+	began    time.Time // when it was announced
+	watching bool
+}
 
 func NewOut(f io.Writer) *Out { return &Out{w: bufio.NewWriterSize(f, 1<<20)} }
-func (o *Out) Flush()         { o.w.Flush() }
+func (o *Out) Flush() {
+	o.mu.Lock()
+	o.w.Flush()
+	o.mu.Unlock()
+}
+
+// CaseLimit is how long one announced input may keep the implementation busy before the harness gives up on it.
+var CaseLimit = 40 * time.Second
+
+// Begin announces the input that is about to be handed to the implementation and pushes the announcement out
+// at once.  A fatal runtime error inside the call (a stack overflow, a concurrent map write: recover() does
+// not see those) kills the process, and a call that never returns is ended by the watchdog below; in both
+// cases the last announcement on stdout names the failing input, and lib/vcheck.py reports it.  Case() and
+// End() close the announcement.
+func (o *Out) Begin(desc interface{}) {
+	b, _ := json.Marshal(map[string]interface{}{"begin": desc})
+	o.mu.Lock()
+	o.w.Write(b)
+	o.w.WriteByte('\n')
+	o.w.Flush()
+	o.inflight, o.began = b, time.Now()
+	if !o.watching {
+		o.watching = true
+		go o.watch()
+	}
+	o.mu.Unlock()
+}
+
+// End closes an announcement without emitting a case.
+func (o *Out) End() {
+	o.mu.Lock()
+	if o.inflight != nil {
+		o.inflight = nil
+		o.w.WriteString("{\"end\":1}\n")
+		o.w.Flush()
+	}
+	o.mu.Unlock()
+}
+
+func (o *Out) watch() {
+	for {
+		time.Sleep(500 * time.Millisecond)
+		o.mu.Lock()
+		if o.inflight != nil && time.Since(o.began) > CaseLimit {
+			b, _ := json.Marshal(map[string]interface{}{"hung": json.RawMessage(o.inflight), "seconds": int(time.Since(o.began).Seconds())})
+			o.w.Write(b)
+			o.w.WriteByte('\n')
+			o.w.Flush()
+			buf := make([]byte, 1<<20)
+			os.Stderr.Write(buf[:runtime.Stack(buf, true)])
+			os.Exit(4)
+		}
+		o.mu.Unlock()
+	}
+}
 
 // Case emits one case: the Coq term the judge is applied to, a readable
 // description (also what a replay file shows), an input class and whether the
 // case is non-trivial by the property's rule.
 func (o *Out) Case(coq string, desc interface{}, cls string, nontrivial bool) {
 	b, _ := json.Marshal(map[string]interface{}{"coq": coq, "desc": desc, "cls": cls, "nt": nontrivial})
+	o.mu.Lock()
 	o.w.Write(b)
 	o.w.WriteByte('\n')
+	if o.inflight != nil {
+		o.inflight = nil
+		o.w.Flush()
+	}
+	o.mu.Unlock()
 }
 
 // Meta emits run-level counters that end up in the evidence file.
 func (o *Out) Meta(m map[string]interface{}) {
 	b, _ := json.Marshal(map[string]interface{}{"meta": m})
+	o.mu.Lock()
 	o.w.Write(b)
 	o.w.WriteByte('\n')
+	o.mu.Unlock()
 }
 
 // Hx renders bytes as the Coq term (hx "..") of type str.
